@@ -165,7 +165,10 @@ def check_case(case):
             got = np.array([[fn(i, j, *fl) for j in range(30)] for i in range(30)])
             n_eval += 900
             fx, fy = rb.flagvec(*fl[:4]), rb.flagvec(*fl[4:])
-            f, r = _cmp_block(case['fam'], got, T * np.outer(fx, fy), S * np.outer(np.abs(fx), np.abs(fy)),
+            # the full-interval tables are literal constants (15 significant digits): no evaluation error to allow for, the
+            # tolerance is relative to the exact entry itself, and exact zeros must be returned as zeros
+            Tref = T * np.outer(fx, fy)
+            f, r = _cmp_block(case['fam'], got, Tref, np.abs(Tref) * (1e-13 / (CTOL * EPS)),
                               'flags=%s' % nm, dict(flags=fl))
             fails += f
             ratio = max(ratio, r)
